@@ -29,7 +29,7 @@ Theorem C11_exchange_event : forall w e x add rem t nd,
                add rem (x_oldrel x) (n_rel nd) (x_oldtarget x) bits (is_locked w) 0].
 Proof. exact ev_exchange_exact. Qed.
 
-Theorem C11_no_event_from_failed_call : forall w o w' evs, step w o = (w', Panic, evs) -> w' = w /\ evs = [].
+Theorem C11_no_event_from_failed_call : forall w o w' evs, step w o = (w', Panic, evs) -> w' = ghost_of w o /\ evs = [].
 Proof. exact panic_atomic. Qed.
 
 
@@ -107,3 +107,17 @@ Theorem C11_batch_remove_events : forall w A f w' n evs,
   evs = flat_map (rm_ev w) (table_ents w (get_tables w f)).
 Proof. exact batch_remove_events_exact. Qed.
 Print Assumptions C11_batch_remove_events.
+
+(** ** Batch.SetRelation / Relations.SetBatch.  With an all-subscribing listener the call
+    emits, in processing order, exactly one TargetChanged event per entity whose target
+    actually changed - the event of the single Relations.Set ([C11_target_event_exact]):
+    no component added or removed, the relation component as old and new relation, the
+    entity's OLD target, type bits = TargetChanged - and none for entities that already had
+    the target. *)
+From Arche Require Import Proofs.BatchQ.
+Theorem C11_batch_set_relation_events : forall w A f rid T w' n evs,
+  R w A -> cache_ok w -> w_listener w = Some lall ->
+  op_batch_set_relation w (FPlain f) rid T = (w', Ok (VNat n), evs) ->
+  evs = flat_map (sr_ev w rid) (table_ents w (retargeted T w (get_tables w f))).
+Proof. exact batch_set_relation_events_exact. Qed.
+Print Assumptions C11_batch_set_relation_events.
